@@ -844,7 +844,52 @@ fn gen_reply(rng: &mut Rng, cfg: &Cfg, run: &Run, srv: &mut Server, now: u64) ->
     Op::Recv { now, decodable: !rng.chance(1, 15), class, method, id, attrs }
 }
 
+/// long send / response sequences for the RTO estimator (C15): delays from 1 ms to beyond the first retransmission,
+/// idle gaps around the 600 s staleness boundary
+fn gen_rtt_history(rng: &mut Rng, out: &mut Out, stats: &mut HashMap<String, u64>) {
+    let rto = *rng.pick(&[500_000_000u64, 100_000_000, 1_000_000_000, 37_000_001]);
+    let cfg = Cfg { reliable: false, rto, rm: 16, rc: 7, gran: *rng.pick(&[1_000_000u64, 0, 50_000_000]), limit: 10, mech: 0, fp: false };
+    let mut run = Run::new(cfg.clone());
+    out.rec(&run.header());
+    let mut now: u64 = 5;
+    let n = rng.range(20, 150);
+    for _ in 0..n {
+        // idle gap before the request
+        now += match rng.below(12) {
+            0 => 600_000_000_000,
+            1 => 600_000_000_001,
+            2 => 599_999_999_999,
+            3 => 1_300_000_000_000,
+            _ => rng.range(1, 2_000_000_000),
+        };
+        run.apply(out, &Op::Send { now, method: 1, room: true, attrs: vec![] });
+        let Some(&id) = run.outstanding.last() else { continue };
+        // response delay: mostly well below the RTO, sometimes beyond the first retransmission
+        let delay = match rng.below(8) {
+            0 => rng.range(1, 3) * 1_000_000_000,
+            1 => 1_000_000,
+            _ => rng.range(1_000_000, 400_000_000),
+        };
+        let mut t = now;
+        while let Some(a) = run.armed {
+            if a > now + delay { break }
+            t = a.max(t);
+            run.apply(out, &Op::Tmo { now: t });
+            if !run.outstanding.contains(&id) { break }
+        }
+        now = (now + delay).max(t + 1);
+        if run.outstanding.contains(&id) {
+            run.apply(out, &Op::Recv { now, decodable: true, class: 2, method: 1, id, attrs: vec![] });
+        }
+        *stats.entry("rtt_transactions".into()).or_insert(0) += 1;
+    }
+    *stats.entry("rtt_histories".into()).or_insert(0) += 1;
+}
+
 fn gen_history(rng: &mut Rng, out: &mut Out, stats: &mut HashMap<String, u64>) {
+    if rng.chance(1, 10) {
+        return gen_rtt_history(rng, out, stats);
+    }
     let cfg = gen_cfg(rng);
     let mut run = Run::new(cfg.clone());
     out.rec(&run.header());
